@@ -45,6 +45,11 @@ def run(ctx):
         styles = [None, None, "xml", "sgml"] if not quick else [None, rnd.choice(["xml", "sgml"])]
         for j, st in enumerate(styles):
             text = sc.render(rnd, t, st)
+            if rnd.random() < 0.05:
+                # an earlier parse that FAILS (truncated body, elements still open; or a wrong end tag) must leave
+                # nothing behind that the next parser sees
+                cut = text[:rnd.randrange(1, max(2, len(text) - 1))] if rnd.random() < 0.6 else text + "</ZZWRONG>"
+                evs.append(sc.ev_parse("r%dv%dx" % (i, j), cut))
             evs.append(sc.ev_parse("r%dv%d" % (i, j), text.strip() if rnd.random() < 0.5 else text, want=want))
             if len(t[2]) > 0:
                 ctx.nontrivial.add(text)
